@@ -4,6 +4,12 @@ R4n  name the ghost iterator of a `for` loop:   for PAT in EXPR { .. }   ->   fo
      (k = ordinal of the `for` keyword in the item).  Verus only lets loop invariants speak about the elements already
      yielded (`vx_itk.index@`, `vx_itk.history@`) when the iterator is named; the loop itself is unchanged.
 
+R7e  error-message format!:   CasClientError::Other(format!("..", ARGS))   ->   CasClientError::Other(vx_error_text())
+     An error TEXT carries no property; the unit provides `#[verifier::external_body] fn vx_error_text() -> String` (unconstrained).
+     Fires only when the format! is the sole argument of the `CasClientError::Other(` constructor and its arguments after the literal
+     are plain value expressions (identifiers, field accesses, argument-less method calls such as `.len()`): nothing with an effect
+     is dropped.  Makes the outline independent of the wording of the message.
+
 R7m  Option::map with a closure literal, unfolded to its core definition (own copy of the rule in setops.py, registered
      under a name of its own because rule names collide across files):
          RECV.map(|x| BODY)   ->   (match RECV { Some(x) => Some(BODY), None => None })
@@ -119,4 +125,40 @@ def r7m_option_map(text, log):
             return text
 
 
-RULES = {"R4n": r4n_name_for_iterator, "R7m": r7m_option_map}
+def r7e_error_format(text, log):
+    while True:
+        st = sig(lex(text))
+        done = True
+        for i in find_seq(st, ["CasClientError", ":", ":", "Other", "(", "format", "!", "("]):
+            o_ctor = i + 4
+            o_fmt = i + 7
+            c_fmt = match_close(st, o_fmt)
+            c_ctor = match_close(st, o_ctor)
+            if c_ctor != c_fmt + 1:
+                continue  # format! is not the sole argument
+            inner = st[o_fmt + 1:c_fmt]
+            if not inner or inner[0].kind != "str":
+                continue
+            ok = True
+            for k, t in enumerate(inner[1:], 1):
+                if t.kind == "ident" and t.text not in ("mut", "move", "unsafe", "await"):
+                    continue
+                if t.kind == "punct" and t.text in (",", "."):
+                    continue
+                if t.kind == "punct" and t.text == "(" and k + 1 < len(inner) and inner[k + 1].text == ")" and inner[k - 1].kind == "ident":
+                    continue  # argument-less method call
+                if t.kind == "punct" and t.text == ")" and inner[k - 1].text == "(":
+                    continue
+                ok = False
+                break
+            if not ok:
+                continue
+            text = text[:st[i + 5].start] + "vx_error_text()" + text[st[c_fmt].end:]
+            log["R7e error-message format!"] = log.get("R7e error-message format!", 0) + 1
+            done = False
+            break
+        if done:
+            return text
+
+
+RULES = {"R4n": r4n_name_for_iterator, "R7m": r7m_option_map, "R7e": r7e_error_format}
